@@ -350,3 +350,18 @@ func FullMatch(p, s string) bool { return regexp.MustCompile(`^(?:` + p + `)$`).
 
 // Compiles reports whether p is a valid regular expression.
 func Compiles(p string) bool { _, err := regexp.Compile(p); return err == nil }
+
+// FIte selects between two floats without branching.
+func FIte(c bool, a, b float64) float64 {
+	if c {
+		return a
+	}
+	return b
+}
+
+// PendingTimer is the duration of the oldest armed timer (time.After/NewTimer/Sleep) some goroutine waits on,
+// -1 if there is none. Engine only: natively it returns -1 and harnesses guard its use with Engine().
+func PendingTimer() time.Duration { return -1 }
+
+// PendingTimers is the number of armed timers some goroutine is waiting on (engine only; natively 0).
+func PendingTimers() int { return 0 }
